@@ -52,18 +52,19 @@ theorem word_functions_are_fips (x y z : UInt32) :
     Sha256.Ch x y z = Spec.Ch x y z ∧ Sha256.Maj x y z = Spec.Maj x y z :=
   ⟨S0_eq x, S1_eq x, s0_eq x, s1_eq x, Ch_eq x y z, Maj_eq x y z⟩
 
-/-- one `Transform` call (rolling 16-word window, rotating register index, macro `R`) is the
-compression function of FIPS 180-4 §6.2.2, for every chaining value and every block -/
+/-- one `Transform` call (the GENERATED translation of the function body: copy loops, the `j`/`i` loops, macro `R`
+over the rolling 16-word window and the rotating register index) is the compression function of FIPS 180-4
+§6.2.2, for every chaining value and every block -/
 theorem transform_eq_fips (state data : List UInt32) (hs : state.length = 8) (hd : data.length = 16) :
     transform state data = (Spec.compress state data, true) :=
   transform_eq_compress state data hs hd
 
 /-- the result of `Transform` does not depend on the (in C++ uninitialised) initial content of its
-local array `W[16]`: every cell is written before it is read -/
-theorem transform_ignores_uninitialised_W (w0 state data : List UInt32) (hw : w0.length = 16)
+local arrays `T[8]` and `W[16]`: every cell is written before it is read -/
+theorem transform_ignores_uninitialised_locals (t0 w0 state data : List UInt32) (ht : t0.length = 8) (hw : w0.length = 16)
     (hs : state.length = 8) (hd : data.length = 16) :
-    transformFrom w0 state data = (Spec.compress state data, true) :=
-  transformFrom_eq_compress w0 state data hw hs hd
+    transformFrom t0 w0 state data = (Spec.compress state data, true) :=
+  transformFrom_eq_compress t0 w0 state data ht hw hs hd
 
 /-- the padded message of the spec is a whole number of 64-byte blocks (so `Spec.hashBlocks`, which
 ignores a trailing partial block, consumes all of it) -/
